@@ -31,20 +31,20 @@ type rawResult struct {
 }
 
 type world struct {
-	p      *plan.Plan
-	k      *kernel
-	docs   map[string][]byte
-	trees  map[string]*treeInst
-	opts   map[string]*optInst
-	net    [][]*netState
-	paths  [][]string
-	tmp    string
+	p         *plan.Plan
+	k         *kernel
+	docs      map[string][]byte
+	trees     map[string]*treeInst
+	opts      map[string]*optInst
+	net       [][]*netState
+	paths     [][]string
+	tmp       string
 	shapes    map[string][2]int
 	treeUsers map[string]map[int]bool
 	optUsers  map[string]map[int]bool
-	walfd  int
-	wal    [][][2][]byte
-	modpfx string
+	walfd     int
+	wal       [][][2][]byte
+	modpfx    string
 }
 
 //go:norace
@@ -483,6 +483,102 @@ func TestWorker(t *testing.T) {
 	// eats a gigabyte
 	debug.SetMaxStack(256 << 20)
 
+	finished := false
+	finish := func() {
+		if finished {
+			return
+		}
+		finished = true
+		// collect
+		for _, tk := range k.tasks {
+			for i := range tk.out {
+				oo := &tk.out[i]
+				if oo.Finished && oo.Panic == "" {
+					rr := tk.results[i]
+					rec := makeRecord(rr.res, rr.err)
+					if oo.Rec == nil {
+						oo.Rec = rec
+						oo.Digest = rec.Digest()
+					} else if d := rec.Digest(); d != oo.Digest {
+						oo.Snap = append(oo.Snap, "result object changed after it was returned: "+strings.Join(oo.Rec.Diff(rec), ","))
+					}
+					if rr.res != nil {
+						tm := &struct {
+							Total int64 `json:"total"`
+							N     int   `json:"n"`
+						}{int64(rr.res.TimingInfo.TotalTime), len(rr.res.TimingInfo.OtherTimes)}
+						oo.Timing = tm
+					}
+				}
+				if oo.Stack != "" {
+					oo.PanicSite = w.panicSite(oo.Stack)
+					if len(oo.Stack) > 6000 {
+						oo.Stack = oo.Stack[:6000]
+					}
+				}
+				out.Ops = append(out.Ops, *oo)
+			}
+		}
+		sort.SliceStable(out.Ops, func(i, j int) bool {
+			if out.Ops[i].Task != out.Ops[j].Task {
+				return out.Ops[i].Task < out.Ops[j].Task
+			}
+			return out.Ops[i].Op < out.Ops[j].Op
+		})
+		out.Yields = k.yieldsTotal
+		out.Switches = k.switches
+		out.MapSites = map[string]plan.MapSiteStat{}
+		out.Fired = map[string]int{}
+		out.Probes = map[string]int{}
+		for s := 0; s < maxSites; s++ {
+			if k.siteHit[s] {
+				out.SitesHit++
+			}
+			if k.siteSwitch[s] {
+				out.SwitchSites++
+			}
+			if k.mapEvents[s] > 0 {
+				out.MapSites[strconv.Itoa(s)] = plan.MapSiteStat{Events: k.mapEvents[s], MultiKey: k.mapMulti[s], MaxKeys: k.mapMax[s], Permuted: k.mapPermuted[s]}
+			}
+		}
+		for _, oo := range out.Ops {
+			for _, f := range oo.Fired {
+				out.Fired[f]++
+			}
+		}
+		out.SnapSwitch = k.snapSw
+		out.ChildGates = k.gateEvents
+		out.Foreign = k.foreign
+		out.EventLog = strconv.FormatUint(k.h, 16)
+		out.SchedFP = strconv.FormatUint(k.fp, 16) + ":" + strconv.FormatInt(k.fpN, 10)
+		if fsSeamUsed {
+			out.Probes["fs_seam_used"] = 1
+		}
+		if k.spawned > 0 {
+			out.Probes["library_goroutines_as_tasks"] = k.spawned
+		}
+		if k.blockEvents > 0 {
+			out.Probes["blocking_ops_bracketed"] = k.blockEvents
+		}
+		if k.clientsWrapped > 0 {
+			out.Probes["own_http_transport_rerouted"] = k.clientsWrapped
+		}
+		if ep := os.Getenv("VERIF_EVENTLOG"); ep != "" {
+			var sb strings.Builder
+			for i := 0; i+4 <= k.traceN; i += 4 {
+				fmt.Fprintf(&sb, "%d %d %d %d\n", k.trace[i], k.trace[i+1], k.trace[i+2], k.trace[i+3])
+			}
+			for _, oo := range out.Ops {
+				fmt.Fprintf(&sb, "op %d %d digest=%s yields=%d sim=%d..%d fired=%v\n", oo.Task, oo.Op, oo.Digest, oo.Yields, oo.SimStart, oo.SimEnd, oo.Fired)
+			}
+			os.WriteFile(ep, []byte(sb.String()), 0o644)
+		}
+		if k.leftBehind {
+			out.Probes["library_goroutines_left_behind"] = 1
+		}
+		out.Done = out.Harness == ""
+		writeOut()
+	}
 	run := func() {
 		// hooks first: the harness's own dom.Parse calls during set-up must
 		// see the canonical goroutine order of the charset detector too
@@ -520,6 +616,11 @@ func TestWorker(t *testing.T) {
 		simrt.H = nil
 		http.DefaultTransport = savedTransport
 		out.LogBytes = snk.restore()
+		if os.Getenv("VERIF_NOEXIT") == "" {
+			// leave before the test framework waits for goroutines the library may have left blocked or looping
+			finish()
+			os.Exit(0)
+		}
 	}
 
 	// stall watchdog (outside the bubble, real time): an op in flight that reaches no scheduling
@@ -566,90 +667,5 @@ func TestWorker(t *testing.T) {
 		}()
 	}
 
-	// collect
-	for _, tk := range k.tasks {
-		for i := range tk.out {
-			oo := &tk.out[i]
-			if oo.Finished && oo.Panic == "" {
-				rr := tk.results[i]
-				rec := makeRecord(rr.res, rr.err)
-				if oo.Rec == nil {
-					oo.Rec = rec
-					oo.Digest = rec.Digest()
-				} else if d := rec.Digest(); d != oo.Digest {
-					oo.Snap = append(oo.Snap, "result object changed after it was returned: "+strings.Join(oo.Rec.Diff(rec), ","))
-				}
-				if rr.res != nil {
-					tm := &struct {
-						Total int64 `json:"total"`
-						N     int   `json:"n"`
-					}{int64(rr.res.TimingInfo.TotalTime), len(rr.res.TimingInfo.OtherTimes)}
-					oo.Timing = tm
-				}
-			}
-			if oo.Stack != "" {
-				oo.PanicSite = w.panicSite(oo.Stack)
-				if len(oo.Stack) > 6000 {
-					oo.Stack = oo.Stack[:6000]
-				}
-			}
-			out.Ops = append(out.Ops, *oo)
-		}
-	}
-	sort.SliceStable(out.Ops, func(i, j int) bool {
-		if out.Ops[i].Task != out.Ops[j].Task {
-			return out.Ops[i].Task < out.Ops[j].Task
-		}
-		return out.Ops[i].Op < out.Ops[j].Op
-	})
-	out.Yields = k.yieldsTotal
-	out.Switches = k.switches
-	out.MapSites = map[string]plan.MapSiteStat{}
-	out.Fired = map[string]int{}
-	out.Probes = map[string]int{}
-	for s := 0; s < maxSites; s++ {
-		if k.siteHit[s] {
-			out.SitesHit++
-		}
-		if k.siteSwitch[s] {
-			out.SwitchSites++
-		}
-		if k.mapEvents[s] > 0 {
-			out.MapSites[strconv.Itoa(s)] = plan.MapSiteStat{Events: k.mapEvents[s], MultiKey: k.mapMulti[s], MaxKeys: k.mapMax[s], Permuted: k.mapPermuted[s]}
-		}
-	}
-	for _, oo := range out.Ops {
-		for _, f := range oo.Fired {
-			out.Fired[f]++
-		}
-	}
-	out.SnapSwitch = k.snapSw
-	out.ChildGates = k.gateEvents
-	out.Foreign = k.foreign
-	out.EventLog = strconv.FormatUint(k.h, 16)
-	out.SchedFP = strconv.FormatUint(k.fp, 16) + ":" + strconv.FormatInt(k.fpN, 10)
-	if fsSeamUsed {
-		out.Probes["fs_seam_used"] = 1
-	}
-	if k.spawned > 0 {
-		out.Probes["library_goroutines_as_tasks"] = k.spawned
-	}
-	if k.blockEvents > 0 {
-		out.Probes["blocking_ops_bracketed"] = k.blockEvents
-	}
-	if k.clientsWrapped > 0 {
-		out.Probes["own_http_transport_rerouted"] = k.clientsWrapped
-	}
-	if ep := os.Getenv("VERIF_EVENTLOG"); ep != "" {
-		var sb strings.Builder
-		for i := 0; i+4 <= k.traceN; i += 4 {
-			fmt.Fprintf(&sb, "%d %d %d %d\n", k.trace[i], k.trace[i+1], k.trace[i+2], k.trace[i+3])
-		}
-		for _, oo := range out.Ops {
-			fmt.Fprintf(&sb, "op %d %d digest=%s yields=%d sim=%d..%d fired=%v\n", oo.Task, oo.Op, oo.Digest, oo.Yields, oo.SimStart, oo.SimEnd, oo.Fired)
-		}
-		os.WriteFile(ep, []byte(sb.String()), 0o644)
-	}
-	out.Done = out.Harness == ""
-	writeOut()
+	finish()
 }
